@@ -404,7 +404,7 @@ func (x *Exec) doTx(op *Op) {
 				return
 			}
 		}
-		x.stats.inc("odd_length_provider_response")
+		x.stats.inc("probe_odd_length_provider_response")
 	}
 	for _, m := range msgs {
 		sg := m.GetSigners()
